@@ -61,3 +61,16 @@ Definition union_key (u : union) : option (list string * option string) :=
 Definition union_key_old (u : union) : option (list string * option string) :=
   let rs := ref_set (variants u) in
   if Nat.leb 2 (List.length rs) then Some (rs, discriminator u) else None.
+
+(* a union of values: every variant is a set of values (const / enum) or "open" (a plain integer, an object, a
+   freeform string, ... identified by its canonical text) which accepts documents that are not listed values.
+   inline_resolver.rs value_enum_cache_key (since fix 286df18): such a union has an enum key only when no variant is
+   open; before the fix the open variants were simply skipped. *)
+Inductive vvar := VValues (vs : list jv) | VOpen (canon : string).
+Definition vu_values (u : list vvar) : list jv :=
+  flat_map (fun v => match v with VValues vs => vs | VOpen _ => [] end) u.
+Definition vu_open (u : list vvar) : bool :=
+  existsb (fun v => match v with VOpen _ => true | VValues vs => match vs with [] => true | _ => false end end) u.
+Definition value_union_key (u : list vvar) : option (list string) :=
+  if vu_open u then None else Some (enum_key (vu_values u)).
+Definition value_union_key_old (u : list vvar) : option (list string) := Some (enum_key (vu_values u)).
